@@ -636,6 +636,12 @@ def check_one_command(kind: str, args: dict, keyblobs: list, files: dict, fdir: 
         _count(cnt, "statements_unspecified")
         _count(cnt, f"unspecified_outcome:{cls}:{out[0]}" + (":" + out[1] if out[0] == "exc" else ""))
         return viol
+    if exp.get("refuse"):
+        # the statement must be refused (SPSDKError; KeyError is what the CLI also treats as refusal)
+        if out[0] == "spsdk" or (out[0] == "exc" and out[1] == "KeyError"):
+            _count(cnt, "statements_refused_as_required")
+            return viol
+        return [("C19.command", f"{kind}:undeclared-keyblob", f"{kind} {fmt(args)}: {exp['refuse']}, yet outcome {out[0]}")]
     if out[0] == "spsdk":
         _count(cnt, "statements_rejected")
         _count(cnt, f"rejected:{cls}")
@@ -644,57 +650,112 @@ def check_one_command(kind: str, args: dict, keyblobs: list, files: dict, fdir: 
         return [("C19.command", f"{cls}:no-command:{out[1]}",
                  f"{kind} {fmt(args)}: {out[1]}: {out[2]} (expected one command, tag {exp['tag']})")]
     _count(cnt, "statements_compared")
-    raw = out[1]
+    return judge_raw(cls, kind, args, exp, out[1], keyblobs, "")
+
+
+def judge_raw(cls: str, kind: str, args: dict, exp: dict, raw: bytes, keyblobs: list, pre: str) -> list:
+    """One exported command (16-byte header + data) against what the statement demands."""
+    viol: list = []
+    what = f"{pre}{kind} {fmt({k: v for k, v in args.items() if k != 'keyblobs'})}"
     try:
         dec = sem.decode_command(raw)
     except ValueError:
-        return [("C19.command", f"{cls}:export", f"{kind} {fmt(args)}: exported {len(raw)} bytes")]
+        return [("C19.command", f"{cls}:export", f"{what}: exported {len(raw)} bytes")]
     if not dec["checksum_ok"]:
-        viol.append(("C19.command", f"{cls}:checksum", f"{kind} {fmt(args)}"))
-    viol.extend(_header_diff(cls, kind, args, exp, dec, ""))
+        viol.append(("C19.command", f"{cls}:checksum", what))
+    viol.extend(_header_diff(cls, kind, args, exp, dec, pre))
+    body = dec["payload"]
+    blobcls = "load-blob" if (kind == "encrypt" and "values" in args) else cls
     pay = exp.get("payload")
     if pay is not None:
-        body = dec["payload"]
-        if body[:len(pay)] != pay or len(body) != (len(pay) + 15) // 16 * 16:
-            how = "payload"
-            if len(pay) > 1 and body[:len(pay)] == pay[::-1]:
-                how = "payload-byte-order"
-            elif len(body) != (len(pay) + 15) // 16 * 16:
-                how = "payload-length"
-            viol.append(("C19.command", f"{cls}:{how}",
-                         f"{kind} {fmt(args)}: data {body[:32].hex()} ({len(body)} B), expected {pay[:32].hex()} ({len(pay)} B, padded to 16)"))
+        want_len = (len(pay) + 15) // 16 * 16
+        if len(body) != want_len:
+            viol.append(("C19.command", f"{cls}:payload-length",
+                         f"{what}: {len(body)} data bytes, expected the {len(pay)} bytes of the operand (padded to {want_len})"))
+        if body[:len(pay)] != pay:
+            how = "payload-byte-order" if len(pay) > 1 and body[:len(pay)] == pay[::-1] else "payload"
+            viol.append(("C19.command", f"{blobcls}:{how}",
+                         f"{what}: data {body[:32].hex()} ({len(body)} B), expected {pay[:32].hex()} ({len(pay)} B)"))
+    if "payload" in exp or "payload_len" in exp:
         if dec["count"] != len(body) or dec["data"] != sem.crc32_mpeg2(body):
-            viol.append(("C19.command", f"{cls}:count-crc", f"{kind} {fmt(args)}: count {dec['count']}, data {dec['data']:#x}"))
-    if "payload_len" in exp and len(dec["payload"]) != exp["payload_len"]:
-        viol.append(("C19.command", f"{cls}:payload-length", f"{kind}: {len(dec['payload'])} bytes"))
-    kb = exp.get("keyblob")
-    if kb is not None and kind == "keywrap":
-        viol.extend(_check_keywrap(args, kb, dec["payload"]))
+            viol.append(("C19.command", f"{cls}:count-crc", f"{what}: count {dec['count']}, data {dec['data']:#x}"))
+    if "payload_len" in exp and len(body) != exp["payload_len"]:
+        viol.append(("C19.command", f"{cls}:payload-length", f"{what}: {len(body)} data bytes, expected {exp['payload_len']}"))
+    ctx = exp.get("ctx")
+    if ctx is not None and kind == "keywrap":
+        viol.extend(_check_keywrap(args, exp, body, keyblobs, what))
+    if ctx is not None and "encrypted" in exp and len(body) == exp.get("payload_len"):
+        viol.extend(_check_encrypted(args, exp, body, keyblobs, blobcls, what))
     return viol
 
 
-def _check_keywrap(args: dict, kb: dict, payload: bytes) -> list:
-    """RFC 3394 unwrap with the statement's KEK: key, counter and start address of the selected
-    keyblob must be in the first 28 bytes."""
-    from cryptography.hazmat.primitives.keywrap import InvalidUnwrap, aes_key_unwrap
+def _hw_context(ctx: dict):
+    from vf.ref import otfad_hw as hw
 
+    return hw.Context(0, ctx["key"], ctx["ctr"], ctx["start"], ctx["end"], b"\0" * 4, 0, True)
+
+
+def _check_keywrap(args: dict, exp: dict, payload: bytes, keyblobs: list, what: str) -> list:
+    """RFC 3394 unwrap (reference implementation) with the statement's KEK: key, counter, start
+    and end granule of the key blob with the NUMBER the statement names."""
+    from vf.ref import otfad_hw as hw
+
+    ctx = exp["ctx"]
     try:
-        c = kb["keyblob_content"][0]
         kek = bytes.fromhex(args["values"])
-        key = bytes.fromhex(c["key"])
-        ctr = bytes.fromhex(c["counter"])
-        start = int(c["start"])
-    except (KeyError, ValueError, TypeError, IndexError):
+    except (KeyError, ValueError, TypeError):
         return []
-    if len(kek) != 16 or len(key) != 16 or len(ctr) != 8:
+    if len(kek) != 16:
         return []
-    try:
-        plain = aes_key_unwrap(kek, payload[:48])
-    except (InvalidUnwrap, ValueError):
-        return [("C19.command", "keywrap:unwrap", "payload does not unwrap with the statement's key")]
-    if plain[:16] != key or plain[16:24] != ctr or int.from_bytes(plain[24:28], "little") != start:
-        return [("C19.command", "keywrap:keyblob-fields", f"unwrapped {plain[:28].hex()}")]
-    return []
+    plain = hw.rfc3394_unwrap(kek, payload[:48])
+    if plain is None:
+        return [("C19.command", "keywrap:unwrap", f"{what}: payload does not unwrap with the statement's key")]
+    rec = hw.parse_plain_record(0, plain)
+
+    def same(c: dict) -> bool:
+        return (rec.key == c["key"] and rec.ctr == c["ctr"] and rec.srtaddr == c["start"]
+                and (rec.endaddr | 0x3FF) == ((max(c["end"], 1) - 1) | 0x3FF))
+
+    if same(ctx):
+        return []
+    for kb in keyblobs:
+        c = sem.keyblob_fields(norm(kb)) if isinstance(kb, dict) else None
+        if c is not None and kb.get("keyblob_id") != exp["keyblob"].get("keyblob_id") and same(c):
+            return [("C19.command", "keywrap:wrong-keyblob",
+                     f"{what}: the wrapped blob is key blob {kb.get('keyblob_id')}, not {exp['keyblob'].get('keyblob_id')}")]
+    return [("C19.command", "keywrap:keyblob-fields",
+             f"{what}: unwrapped key {rec.key.hex()} counter {rec.ctr.hex()} start {rec.srtaddr:#x} end {rec.endaddr:#x}")]
+
+
+def _check_encrypted(args: dict, exp: dict, body: bytes, keyblobs: list, blobcls: str, what: str) -> list:
+    """The OTFAD reference model, loaded with the key blob of the stated NUMBER, must read the
+    operand back from the LOAD data (judged where load address = start of the blob's region, the
+    only placement for which the documents fix the counter)."""
+    from vf.ref import otfad_hw as hw
+
+    ctx = exp["ctx"]
+    data = exp["encrypted"]
+    if exp["address"] != ctx["start"] or exp["address"] % 16:
+        return []
+
+    def reads(c: dict) -> bytes:
+        return hw.OtfadHw([_hw_context(c)], byte_swap=c["byte_swap"]).read(body, exp["address"])
+
+    plain = reads(ctx)
+    if plain[:len(data)] == data:
+        return []
+    if "values" in args and len(data) > 1 and plain[:len(data)] == data[::-1]:
+        return [("C19.command", f"{blobcls}:payload-byte-order", f"{what}: decrypts to the reversed blob")]
+    for kb in keyblobs:
+        c = sem.keyblob_fields(norm(kb)) if isinstance(kb, dict) else None
+        if c is None or kb.get("keyblob_id") == exp["keyblob"].get("keyblob_id"):
+            continue
+        c = dict(c, start=ctx["start"], end=ctx["end"])  # same region, the other blob's key / counter
+        if reads(c)[:len(data)] == data:
+            return [("C19.command", "encrypt:wrong-keyblob",
+                     f"{what}: the data are encrypted with key blob {kb.get('keyblob_id')}, not {exp['keyblob'].get('keyblob_id')}")]
+    return [("C19.command", "encrypt:ciphertext", f"{what}: the reference OTFAD model does not read the operand back "
+             f"(first bytes {plain[:16].hex()}, operand {data[:16].hex()})")]
 
 
 # ---------------------------------------------------------------------------------------------
@@ -1098,6 +1159,90 @@ def statement_cases(files: dict, tier: str) -> list:
     return cases
 
 
+# family 7: key blobs are named by their NUMBER — every order of 1..3 `keyblob (N)` blocks with
+# distinct numbers from {0,1,2,3} (out of order, gaps, not starting at 0); every declared number is
+# used by an encrypt and a keywrap statement, one undeclared number must be refused
+
+
+def keyblob_order_grammar() -> Grammar:
+    g = Grammar()
+    for mask in range(16):
+        g.prod(("kb", mask), (), build=lambda: ())
+        for n in range(4):
+            if not mask & (1 << n):
+                g.prod(("kb", mask), (n, NT(("kb", mask | (1 << n)))), build=lambda n, rest: (n,) + rest, weight=1)
+    return g
+
+
+def _kb_def(n: int) -> dict:
+    return {"start": 0x08000000 + n * 0x1000, "end": 0x08000FFF + n * 0x1000,
+            "key": bytes((0x10 * (n + 1) + i) & 0xFF for i in range(16)).hex(),
+            "ctr": bytes((0xA0 + 0x11 * n + i) & 0xFF for i in range(8)).hex()}
+
+
+def _kb_block(n: int, end: Optional[int] = None, swap: Optional[str] = None) -> str:
+    d = _kb_def(n)
+    e = d["end"] if end is None else end
+    tail = f',\n        byteSwap = {swap}' if swap else ""
+    return (f'keyblob ({n}) {{\n    (\n        start = {d["start"]:#x},\n        end = {e:#x},\n'
+            f'        key = "{d["key"]}",\n        counter = "{d["ctr"]}"{tail}\n    )\n}}\n')
+
+
+KB_KEK = "0102030405060708090a0b0c0d0e0f00"
+
+
+def keyblob_number_cases(seed: int) -> list:
+    files = {"img.bin": core.seeded_bytes(seed, "c19-img", 100)}
+    head = 'options {\n    flags = 0x8;\n}\nsources {\n    img = "img.bin";\n}\n'
+    g = keyblob_order_grammar()
+    cases = []
+    for size, _i, order in g.smallest_first(("kb", 0), 3, 1):
+        blocks = "".join(_kb_block(n) for n in order)
+        st = []
+        for n in sorted(order, reverse=True):
+            st.append(f"    encrypt ({n}) {{\n        load img > {_kb_def(n)['start']:#x};\n    }}\n")
+            st.append(f"    keywrap ({n}) {{\n        load {{{{{KB_KEK}}}}} > {0x100 + 0x40 * n:#x};\n    }}\n")
+        cases.append({"bd": head + blocks + "section (0) {\n" + "".join(st) + "}\n", "files": files, "cmds": True, "lfc": True,
+                      "tag": f"keyblobs {order}"})
+        u = min(n for n in range(4) if n not in order)
+        cases.append({"bd": head + blocks + f"section (0) {{\n    encrypt ({u}) {{\n        load img > {_kb_def(u)['start']:#x};\n    }}\n}}\n",
+                      "files": files, "cmds": True, "lfc": True, "tag": f"keyblobs {order} encrypt undeclared {u}"})
+        if size <= 2:
+            cases.append({"bd": head + blocks + f"section (0) {{\n    keywrap ({u}) {{\n        load {{{{{KB_KEK}}}}} > 0x100;\n    }}\n}}\n",
+                          "files": files, "cmds": True, "lfc": True, "tag": f"keyblobs {order} keywrap undeclared {u}"})
+    return cases
+
+
+# family 8: encrypt with the decryption-enable (ADE) / valid (VLD) bits of the key blob's `end` in all
+# four combinations x payload lengths around the 512-byte image alignment x payload kinds
+ENC_LENGTHS = [4, 100, 511, 512, 513]
+
+
+def encrypt_flag_cases(seed: int) -> list:
+    files = {f"p{n}.bin": core.seeded_bytes(seed, f"c19-p{n}", n) for n in ENC_LENGTHS}
+    head = ("options {\n    flags = 0x8;\n}\nsources {\n"
+            + "".join(f'    p{n} = "p{n}.bin";\n' for n in ENC_LENGTHS) + "}\n")
+    cases = []
+
+    def body(n: int) -> str:
+        a = _kb_def(n)["start"]
+        st = [f"    encrypt ({n}) {{\n        load p{ln} > {a:#x};\n    }}\n" for ln in ENC_LENGTHS]
+        st.append(f"    encrypt ({n}) {{\n        load {{{{a1 b2 c3 d4}}}} > {a:#x};\n    }}\n")
+        return "".join(st)
+
+    for fl in range(4):
+        for n in (0, 2):
+            end = (_kb_def(n)["end"] & ~7) | fl
+            cases.append({"bd": head + _kb_block(n, end) + "section (0) {\n" + body(n) + "}\n", "files": files, "cmds": True,
+                          "lfc": True, "tag": f"encrypt flags {fl} keyblob {n}"})
+    # one blob enabled, one bypassed, in one program (and byteSwap on the enabled one)
+    for swap in (None, "true"):
+        cases.append({"bd": head + _kb_block(1, (_kb_def(1)["end"] & ~7) | 1) + _kb_block(0, None, swap)
+                      + "section (0) {\n" + body(0) + body(1) + "}\n", "files": files, "cmds": True, "lfc": True,
+                      "tag": f"encrypt mixed swap={swap}"})
+    return cases
+
+
 # ---------------------------------------------------------------------------------------------
 # family 5: constructs documented as unsupported must be refused
 
@@ -1240,18 +1385,9 @@ def _header_diff(cls: str, kind: str, args: dict, exp: dict, dec: dict, pre: str
     return viol
 
 
-def _compare_raw(cls: str, kind: str, args: dict, exp: dict, raw: bytes) -> list:
-    dec = sem.decode_command(raw)
-    viol = _header_diff(cls, kind, args, exp, dec, "load_from_config: ")
-    pay = exp.get("payload")
-    if pay is not None and dec["payload"][:len(pay)] != pay:
-        how = "payload-byte-order" if len(pay) > 1 and dec["payload"][:len(pay)] == pay[::-1] else "payload"
-        viol.append(("C19.command", f"{cls}:{how}", f"load_from_config: {kind} {fmt(args)}: data {dec['payload'][:32].hex()}"))
-    return viol
-
-
 def check_lfc(case: dict, cnt: dict) -> list:
-    """BootImageV21.load_from_config(parsed) -> sections -> command objects."""
+    """The path of `nxpimage sb21 export -c file.bd`: BootImageV21.parse_sb21_config(file, extern)
+    -> BootImageV21.load_from_config(config) -> sections -> command objects."""
     from spsdk.crypto.signature_provider import get_signature_provider
     from spsdk.exceptions import SPSDKError
     from spsdk.sbfile.sb2.images import BootImageV21
@@ -1260,28 +1396,44 @@ def check_lfc(case: dict, cnt: dict) -> list:
 
     BDParser, _ = _spsdk()
     viol: list = []
+    ext = list(case.get("extern") or [])
     try:
-        parsed = BDParser().parse(case["bd"], list(case.get("extern") or []))
+        ref = BDParser().parse(case["bd"], list(ext))  # the statement dictionaries the expectations are built from
     except Exception:  # noqa  (judged by check_case)
         return viol
-    if not isinstance(parsed, dict):
+    if not isinstance(ref, dict):
         return viol
-    ref = copy.deepcopy(parsed)
     fdir = _filedir(case)
     files = _files(case)
+    keyblobs = norm(ref.get("keyblobs", []))
+    want = ref.get("sections", [])
+    exps = []
+    for w in want:
+        row = []
+        for cmd in w.get("commands") or []:
+            for kind, args in cmd.items():
+                row.append((kind, args, sem.expected_simple(kind, args) or sem.expected_command(kind, norm(args), keyblobs, files)))
+        exps.append(row)
+    must_refuse = [e["refuse"] for row in exps for (_k, _a, e) in row if e and e.get("refuse")]
     cert = fixtures.path("certs/rsa2048_root0_nonca.der")
+    bd_path = os.path.join(fdir, f"cmd-{core.short_hash(case['bd'])}.bd")
+    with open(bd_path, "w", encoding="utf-8") as f:
+        f.write(case["bd"])
     _count(cnt, "load_from_config_runs")
     signal.alarm(30)
     try:
+        config = BootImageV21.parse_sb21_config(bd_path, external_files=list(ext))
         sp = get_signature_provider(local_file_key=fixtures.key_path("rsa2048_0"))
         img = BootImageV21.load_from_config(
-            parsed, key_file_path="00" * 32, signature_provider=sp, signing_certificate_file_paths=[cert],
+            config, key_file_path="00" * 32, signature_provider=sp, signing_certificate_file_paths=[cert],
             root_key_certificate_paths=[cert], rkth_out_path=os.path.join(fdir, "hash.bin"), search_paths=[fdir])
         secs = [list(s) for s in img]
         uids = [s.uid for s in img]
         raws = [[c.export() for c in s] for s in secs]
     except (SPSDKError, KeyError) as e:
         _count(cnt, f"load_from_config_refused:{type(e).__name__}")
+        if must_refuse:
+            _count(cnt, "load_from_config_refused_as_required")
         return viol
     except core.Watchdog:
         return [("C19.terminates", "load_from_config:watchdog", "")]
@@ -1289,20 +1441,19 @@ def check_lfc(case: dict, cnt: dict) -> list:
         return [("C19.error-type", f"load_from_config:{type(e).__name__}", _short(str(e)))]
     finally:
         signal.alarm(0)
-    want = ref.get("sections", [])
-    if len(raws) != len(want) or any(len(r) != len(w.get("commands") or []) for r, w in zip(raws, want)):
+    if must_refuse:
+        return [("C19.command", "load_from_config:undeclared-keyblob", f"{must_refuse[0]}, yet an image was built")]
+    if len(raws) != len(want) or any(len(r) != len(row) for r, row in zip(raws, exps)):
         return [("C19.sections", "count", f"sections/commands {[len(r) for r in raws]}, "
-                 f"statements {[len(w.get('commands') or []) for w in want]}")]
+                 f"statements {[len(row) for row in exps]}")]
     if uids != [norm(w.get("section_id")) for w in want]:
         _count(cnt, "observed:section_uid_is_position_not_section_id")
-    for r, w in zip(raws, want):
-        for raw, cmd in zip(r, w["commands"]):
-            for kind, args in cmd.items():
-                exp = sem.expected_simple(kind, args) or sem.expected_command(kind, norm(args), norm(ref.get("keyblobs", [])), files)
-                if exp is None:
-                    continue
-                _count(cnt, "load_from_config_commands_compared")
-                viol.extend(_compare_raw(_stmt_class(kind, args), kind, args, exp, raw))
+    for r, row in zip(raws, exps):
+        for raw, (kind, args, exp) in zip(r, row):
+            if exp is None:
+                continue
+            _count(cnt, "load_from_config_commands_compared")
+            viol.extend(judge_raw(_stmt_class(kind, args), kind, args, exp, raw, keyblobs, "load_from_config: "))
     return viol
 
 
@@ -1500,6 +1651,10 @@ def build_tasks(tier: str, seed: int) -> list:
     reps += [stmt_program([("VER", ["erase-all", "jump"]), ("1", []), ("7", ["load-source"])], files, OPERANDS[1], lfc=True)]
     for ch in _chunks(reps, 12):
         tasks.append({"fam": "list", "label": "load_from_config", "cases": ch})
+    for ch in _chunks(keyblob_number_cases(seed), 16):
+        tasks.append({"fam": "list", "label": "keyblob-numbers", "cases": ch})
+    for ch in _chunks(encrypt_flag_cases(seed), 5):
+        tasks.append({"fam": "list", "label": "encrypt-flags", "cases": ch})
     for ch in _chunks(statement_cases(files, tier), 400):
         tasks.append({"fam": "list", "label": "statements", "cases": ch})
     for c in CONTEXTS:
